@@ -606,6 +606,12 @@ def lift(x):
         return SStr(x)
     if isinstance(x, (bytes, bytearray)):
         return SBytes(bytes(x))
+    if isinstance(x, tuple) and hasattr(x, "_fields"):
+        # namedtuple instance: object with named fields (and the positional view in _items)
+        vals = [lift(i) for i in x]
+        o = SObj(type(x), dict(zip(x._fields, vals)))
+        o.fields["_items"] = STuple(vals)
+        return o
     if isinstance(x, tuple):
         return STuple([lift(i) for i in x])
     if isinstance(x, list):
@@ -720,6 +726,17 @@ def ssub(t, a, n):
         l1 = slen(t)
         # valid for a >= 0: characters of t are characters of base shifted by a0 (t is empty when a0 < 0)
         return ssub(base, simp(a0 + a), simp(zmin(n, l1 - a)))
+    if _kind(t) == z3.Z3_OP_SEQ_CONCAT:
+        # distribute the slice over the concatenation (valid for a >= 0, n >= 0): the part taken from the head has
+        # ta = clamp(len(head) - a, 0, n) characters, the rest comes from the tail starting at max(a - len(head), 0)
+        cs = t.children()
+        head = cs[0]
+        tail = cs[1] if len(cs) == 2 else z3.Concat(*cs[1:])
+        lh = slen(head)
+        ta = simp(z3.If(lh - a < 0, z3.IntVal(0), zmin(lh - a, n)))
+        sh = ssub(head, a, ta)
+        st = ssub(tail, simp(z3.If(a - lh > 0, a - lh, z3.IntVal(0))), simp(n - ta))
+        return simp(z3.Concat(sh, st))
     return z3.SubString(t, a, n)
 
 
@@ -735,12 +752,86 @@ def sat(t, i):
         rest = cs[1] if len(cs) == 2 else z3.Concat(*cs[1:])
         lh = slen(head)
         c = simp(i < lh)
+        if not (z3.is_true(c) or z3.is_false(c)):
+            d = _decide_lt(i, lh)  # uses len(..) >= 0, which z3's simplifier does not
+            if d is not None:
+                c = z3.BoolVal(d)
         if z3.is_true(c):
             return sat(head, i)
         if z3.is_false(c):
             return sat(rest, simp(i - lh))
         return z3.If(c, sat(head, i), sat(rest, simp(i - lh)))
     return z3.SubString(t, i, 1)
+
+
+def _linear(t, k, acc):
+    """accumulate k*t into acc = {'$c': const, id: [atom, coeff]} for a linear integer term (atoms = anything non-linear)"""
+    if z3.is_int_value(t):
+        acc["$c"] = acc.get("$c", 0) + k * t.as_long()
+        return
+    kd = _kind(t)
+    if kd == z3.Z3_OP_ADD:
+        for c in t.children():
+            _linear(c, k, acc)
+        return
+    if kd == z3.Z3_OP_SUB:
+        cs = t.children()
+        _linear(cs[0], k, acc)
+        for c in cs[1:]:
+            _linear(c, -k, acc)
+        return
+    if kd == z3.Z3_OP_UMINUS:
+        _linear(t.children()[0], -k, acc)
+        return
+    if kd == z3.Z3_OP_MUL:
+        cs = t.children()
+        consts = [c for c in cs if z3.is_int_value(c)]
+        others = [c for c in cs if not z3.is_int_value(c)]
+        if len(others) == 1:
+            f = 1
+            for c in consts:
+                f *= c.as_long()
+            _linear(others[0], k * f, acc)
+            return
+    e = acc.setdefault(t.get_id(), [t, 0])
+    e[1] += k
+
+
+def _nonneg_atom(a):
+    kd = _kind(a)
+    if kd == z3.Z3_OP_SEQ_LENGTH:
+        return True
+    if kd == z3.Z3_OP_MOD:
+        m = a.children()[1]
+        return z3.is_int_value(m) and m.as_long() > 0
+    return False
+
+
+def _nonneg(t):
+    """True if the linear term t is syntactically >= 0 (constant >= 0, every atom is a length / a mod and has coefficient >= 0)"""
+    acc = {}
+    _linear(simp(t), 1, acc)
+    if acc.get("$c", 0) < 0:
+        return False
+    for k, v in acc.items():
+        if k == "$c":
+            continue
+        a, co = v
+        if co < 0 or (co > 0 and not _nonneg_atom(a)):
+            return False
+    return True
+
+
+def _decide_lt(a, b):
+    """a < b decided from lengths being non-negative: True / False / None (unknown)"""
+    try:
+        if _nonneg(b - a - 1):
+            return True
+        if _nonneg(a - b):
+            return False
+    except Exception:
+        return None
+    return None
 
 
 def scode(t, i):
